@@ -1,14 +1,14 @@
 #!/usr/bin/env python3
 """Imports sub-agent deliverables /tmp/seed-Cxx-out/{a,b}.* into /verif/seeded/Cxx{a,b}/ (patch.diff, demo_test.go, notes.md, meta.json)."""
 import os, re, json, shutil, sys, glob
-ROUND = 2 if '--round2' in sys.argv else 1
-for out in sorted(glob.glob('/tmp/seed2-C*-out' if ROUND == 2 else '/tmp/seed-C*-out')):
+ROUND = 3 if '--round3' in sys.argv else 2 if '--round2' in sys.argv else 1
+for out in sorted(glob.glob({1: '/tmp/seed-C*-out', 2: '/tmp/seed2-C*-out', 3: '/tmp/seed3-C*-out'}[ROUND])):
     pid = re.search(r'-(C\d+)-out', out).group(1)
     for v in 'ab':
         patch, demo, md = (f'{out}/{v}.patch.diff', f'{out}/{v}_demo_test.go', f'{out}/{v}.md')
         if not (os.path.exists(patch) and os.path.exists(demo)):
             continue
-        d = f'/verif/seeded/{pid}{chr(ord(v) + 2) if ROUND == 2 else v}'
+        d = f'/verif/seeded/{pid}{chr(ord(v) + 2 * (ROUND - 1))}'
         if os.path.exists(f'{d}/meta.json') and '--force' not in sys.argv:
             continue
         os.makedirs(d, exist_ok=True)
